@@ -34,6 +34,16 @@ fn raw_e2(which: Which) -> impl Strategy<Value = RawE2> {
         if choices[0] % 4 != 0 {
             grammar.source |= 2;
         }
+        // one case in 32 is a scaled family (large tables, many kinds): the emitted `parse` loop, its indexing
+        // code and the node conversions are only ever *executed* here
+        if choices[5] % 32 == 0 {
+            grammar.source = 1;
+            grammar.seed_ix = 0xFAAB + choices[6] % 0x0554;
+            grammar.edits.truncate(1);
+            if choices[7] % 3 == 0 {
+                grammar.start = 0xFFFF; // the family's maximum size
+            }
+        }
         if which == Which::C02 {
             // tree building is where the fieldset form and the `_` mask matter: half of the random fieldsets are made
             // named ones, and a third of the fields that were generated as used become `_`
@@ -610,7 +620,11 @@ fn build_case(raw: &RawE2, which: Which, st: &mut Stats) -> Option<(E2Case, Anal
         }
     }
     let cfg = spec.cfg();
-    if cfg.n_n > 26 || cfg.rules.len() > 64 {
+    let scaled = matches!(source, gen::Source::SeedEdits | gen::Source::SeedEditsRepair) && gen::scaled_choice(&raw.grammar).is_some();
+    if scaled {
+        st.class("gen:scaled-family");
+    }
+    if !scaled && (cfg.n_n > 26 || cfg.rules.len() > 64) {
         st.discard("grammar too large for the compiled tier");
         return None;
     }
@@ -840,7 +854,7 @@ pub fn run(ctx: &Ctx, which: Which) -> i32 {
     rep.assumptions = vec![
         "rustc 1.95 (the toolchain that builds the repository) compiles the emitted text; the client is generated by the harness".into(),
         "reference = Earley recogniser and canonical LR(1) driver on the CFG read off the declarations; a disagreement between them is reported as inconclusive, never as a violation".into(),
-        "grammars are bounded (<= 26 nonterminals, <= 64 rules); token strings <= 64 tokens".into(),
+        "grammars are bounded (<= 26 nonterminals, <= 64 rules) except the scaled families (1 case in 32: <= 300 nonterminals, <= 120 terminals, > 256 states); enumerated token strings <= 64 tokens plus up to three long sentences".into(),
     ];
     // regressions
     let dir = ctx.root.join("corpus").join("regress").join(regress_dir);
